@@ -418,13 +418,13 @@ var o3Exceptions = map[string]string{}
 
 var ruleO3 = &Rule{
 	ID:    "O3",
-	Floor: 0,
+	Floor: 40,
 	Doc: "borrowed slices are not written: a function of the ingestion path that receives a slice parameter must not write into its backing array — no append to a re-slice of the parameter (p[:0], p[:k] followed by append writes over the caller's elements) and no element store p[i] = … — unless the parameter is the function's own output buffer (it returns the slice it extended, the append-style API). " +
-		"Decoders reuse their label / value slices for the next call (one labels slice serves every field of an Influx line, every stream entry), so an in-place filter in the handler changes what later rows are stamped with. Scope: live code of writer/ whose parameter element type is not a byte",
+		"Decoders reuse their label / value slices for the next call (one labels slice serves every field of an Influx line, every stream entry), so an in-place filter in the handler changes what later rows are stamped with. Scope: live code of writer/ and ctrl/ (the retention policies are one slice handed to every table group in turn) whose parameter element type is not a byte",
 	Run: func(c *Ctx) []Obl {
 		var obls []Obl
 		var kk keyer
-		for _, fn := range liveModuleFuncs(c, "writer") {
+		for _, fn := range liveModuleFuncs(c, "writer", "ctrl") {
 			for _, p := range fn.Params {
 				sl, ok := p.Type().Underlying().(*types.Slice)
 				if !ok || isByte(sl.Elem()) {
@@ -460,6 +460,15 @@ var ruleO3 = &Rule{
 								if st, ok := rr.(*ssa.Store); ok && st.Addr == x {
 									bad = "stores into an element of the borrowed slice"
 									pos = st.Pos()
+								}
+								// p[i].f = … (also through rp := &p[i])
+								if fa, ok := rr.(*ssa.FieldAddr); ok && fa.X == ssa.Value(x) && fa.Referrers() != nil {
+									for _, r3 := range *fa.Referrers() {
+										if st, ok := r3.(*ssa.Store); ok && st.Addr == ssa.Value(fa) {
+											bad = "stores into a field of an element of the borrowed slice"
+											pos = st.Pos()
+										}
+									}
 								}
 							}
 						case *ssa.Call:
@@ -840,3 +849,444 @@ var ruleD8 = &Rule{
 }
 
 func init() { register(ruleD8) }
+
+
+// ---------------------------------------------------------------------------------
+// B3
+
+type mutexRef struct {
+	key  string    // struct type . field
+	base ssa.Value // the object owning the mutex
+}
+
+// lockOp classifies a call on a sync.Mutex / sync.RWMutex field: "Lock", "RLock", "Unlock", "RUnlock" or "".
+func lockOp(ci ssa.CallInstruction) (string, mutexRef, bool) {
+	com := ci.Common()
+	sc := com.StaticCallee()
+	if sc == nil || len(com.Args) == 0 {
+		return "", mutexRef{}, false
+	}
+	full := sc.String()
+	if !strings.HasPrefix(full, "(*sync.Mutex).") && !strings.HasPrefix(full, "(*sync.RWMutex).") {
+		return "", mutexRef{}, false
+	}
+	op := sc.Name()
+	switch op {
+	case "Lock", "RLock", "Unlock", "RUnlock":
+	default:
+		return "", mutexRef{}, false
+	}
+	fa, ok := com.Args[0].(*ssa.FieldAddr)
+	if !ok {
+		return "", mutexRef{}, false
+	}
+	return op, mutexRef{fieldKey(fa.X.Type(), fa.Field), canonBase(fa.X)}, true
+}
+
+// canonBase: loads of one variable cell (captured variable, address-taken local) denote the same object.
+func canonBase(v ssa.Value) ssa.Value {
+	for {
+		switch x := v.(type) {
+		case *ssa.UnOp:
+			if x.Op == token.MUL {
+				switch x.X.(type) {
+				case *ssa.FreeVar, *ssa.Alloc, *ssa.Global:
+					return x.X
+				}
+			}
+		case *ssa.ChangeType:
+			v = x.X
+			continue
+		}
+		return v
+	}
+}
+
+// acquires: does fn lock the mutex field `key` of its parameter number pi (directly or through calls passing that parameter on)?
+func acquires(fn *ssa.Function, pi int, key string, depth int, seen map[*ssa.Function]bool) (bool, string) {
+	if fn == nil || depth > 4 || seen[fn] || len(fn.Blocks) == 0 || pi >= len(fn.Params) {
+		return false, ""
+	}
+	seen[fn] = true
+	p := fn.Params[pi]
+	for _, b := range fn.Blocks {
+		for _, ins := range b.Instrs {
+			ci, ok := ins.(ssa.CallInstruction)
+			if !ok {
+				continue
+			}
+			if _, isGo := ins.(*ssa.Go); isGo {
+				continue // another goroutine may wait for the lock; it does not deadlock the caller by itself
+			}
+			if op, m, ok := lockOp(ci); ok && (op == "Lock" || op == "RLock") && m.key == key && m.base == ssa.Value(p) {
+				return true, ssaName(fn)
+			}
+			sc := ci.Common().StaticCallee()
+			if sc == nil || len(sc.Blocks) == 0 {
+				continue
+			}
+			for i, a := range ci.Common().Args {
+				if a == ssa.Value(p) {
+					if ok, via := acquires(sc, i, key, depth+1, seen); ok {
+						return true, ssaName(fn) + " → " + via
+					}
+				}
+			}
+		}
+	}
+	return false, ""
+}
+
+var ruleB3 = &Rule{
+	ID:    "B3",
+	Floor: 15,
+	Doc: "no re-entrant locking: sync.Mutex and sync.RWMutex are not re-entrant. For every Lock / RLock on a mutex field of an object, the held region (to the matching Unlock on each path, or to the end of the function when the Unlock is deferred) must not contain a call — on the same object — to a function that acquires the same mutex field itself, directly or through further calls on that object (goroutines started in the region are not counted). " +
+		"Such a call blocks forever without panicking, the lock is never released, every later request on that service blocks behind it and no response is ever written",
+	Run: func(c *Ctx) []Obl {
+		var obls []Obl
+		var kk keyer
+		for _, fn := range liveModuleFuncs(c, "writer", "reader", "ctrl") {
+			// deferred unlocks
+			for _, b := range fn.Blocks {
+				for i, ins := range b.Instrs {
+					ci, ok := ins.(*ssa.Call)
+					if !ok {
+						continue
+					}
+					op, m, ok := lockOp(ci)
+					if !ok || (op != "Lock" && op != "RLock") {
+						continue
+					}
+					// walk the held region
+					bad := ""
+					var badPos token.Pos
+					seenB := map[*ssa.BasicBlock]bool{}
+					var walk func(blk *ssa.BasicBlock, from int)
+					walk = func(blk *ssa.BasicBlock, from int) {
+						for j := from; j < len(blk.Instrs); j++ {
+							x, ok := blk.Instrs[j].(ssa.CallInstruction)
+							if !ok {
+								continue
+							}
+							if _, isGo := blk.Instrs[j].(*ssa.Go); isGo {
+								continue
+							}
+							if _, isDefer := blk.Instrs[j].(*ssa.Defer); isDefer {
+								continue
+							}
+							if o2, m2, ok := lockOp(x); ok && m2.key == m.key && m2.base == m.base {
+								if o2 == "Unlock" || o2 == "RUnlock" {
+									return // released on this path (a deferred Unlock is a Defer instruction, not seen here: the region then runs to the end)
+								}
+								if o2 == "Lock" || (o2 == "RLock" && op == "Lock") {
+									bad = "locks the same mutex again in " + ssaName(fn)
+									badPos = x.Pos()
+								}
+								continue
+							}
+							sc := x.Common().StaticCallee()
+							if sc == nil || len(sc.Blocks) == 0 {
+								continue
+							}
+							for ai, a := range x.Common().Args {
+								if canonBase(a) == m.base {
+									if ok, via := acquires(sc, ai, m.key, 0, map[*ssa.Function]bool{}); ok {
+										bad = "calls " + via + ", which acquires the same mutex"
+										badPos = x.Pos()
+									}
+								}
+							}
+						}
+						for _, s := range blk.Succs {
+							if !seenB[s] {
+								seenB[s] = true
+								walk(s, 0)
+							}
+						}
+					}
+					walk(b, i+1)
+					short := m.key[strings.LastIndex(m.key, "/")+1:]
+					key := kk.key(ssaName(fn) + " holds " + short)
+					if bad != "" {
+						obls = append(obls, Obl{Key: key, Pos: c.pos(badPos), Status: Violation,
+							Msg: "while " + short + " is held (" + op + " at " + c.pos(ci.Pos()) + ") the function " + bad + ": sync mutexes are not re-entrant, the call never returns and the lock is never released"})
+					} else {
+						obls = append(obls, Obl{Key: key, Pos: c.pos(ci.Pos()), Status: OK})
+					}
+				}
+			}
+		}
+		return obls
+	},
+}
+
+func init() { register(ruleB3) }
+
+// ---------------------------------------------------------------------------------
+// A12
+
+// errOrigin classifies where an error value comes from; returns "" when every origin is an outcome carried unchanged, otherwise
+// the description of the first origin that can lose the outcome.
+func errOrigin(v ssa.Value, seen map[ssa.Value]bool, depth int) string {
+	if v == nil || seen[v] || depth > 30 {
+		return ""
+	}
+	seen[v] = true
+	switch x := v.(type) {
+	case *ssa.Const:
+		return "" // an explicit nil / constant: judged by the control-flow rules (A1–A3)
+	case *ssa.Phi:
+		for _, e := range x.Edges {
+			if w := errOrigin(e, seen, depth+1); w != "" {
+				return w
+			}
+		}
+		return ""
+	case *ssa.ChangeInterface:
+		return errOrigin(x.X, seen, depth+1)
+	case *ssa.MakeInterface:
+		return ""
+	case *ssa.Parameter, *ssa.FreeVar:
+		return ""
+	case *ssa.Call:
+		return "" // the outcome of a call (retry.Do, an insert, an error constructor)
+	case *ssa.Extract:
+		if _, ok := x.Tuple.(*ssa.Call); ok {
+			return ""
+		}
+		if ta, ok := x.Tuple.(*ssa.TypeAssert); ok {
+			return errOrigin(ta.X, seen, depth+1)
+		}
+		return "a value of unknown origin"
+	case *ssa.TypeAssert:
+		return errOrigin(x.X, seen, depth+1)
+	case *ssa.UnOp:
+		if x.Op != token.MUL {
+			return ""
+		}
+		switch a := x.X.(type) {
+		case *ssa.Alloc:
+			// local variable cell: every value stored into it
+			if refs := a.Referrers(); refs != nil {
+				for _, r := range *refs {
+					if st, ok := r.(*ssa.Store); ok && st.Addr == ssa.Value(a) {
+						if w := errOrigin(st.Val, seen, depth+1); w != "" {
+							return w
+						}
+					}
+				}
+			}
+			return ""
+		case *ssa.FreeVar:
+			return ""
+		case *ssa.IndexAddr:
+			return "an element picked out of a slice of errors (it can be nil although the operation failed)"
+		case *ssa.FieldAddr:
+			return "a struct field read back later (not the outcome of this operation)"
+		}
+		return "a value loaded from memory"
+	case *ssa.Lookup:
+		return "a map element"
+	case *ssa.Index:
+		return "an element picked out of an array of errors"
+	}
+	return ""
+}
+
+var ruleA12 = &Rule{
+	ID:    "A12",
+	Floor: 4,
+	Doc: "the outcome is carried unchanged: wherever the ingest path resolves a request promise (a call of (*promise.Promise).Done in writer/service and writer/controller), the error argument is — on every path, through phis, interface changes and local variables — the result of a call (the retried push, the INSERT, an error constructor), a parameter, or a constant. " +
+		"An error that is picked out of a collection or read back from a field is a violation: unwrapping the retry library's error list to `its last element` yields nil when retrying stopped early, and the request is acknowledged although its only INSERT failed",
+	Run: func(c *Ctx) []Obl {
+		var obls []Obl
+		var kk keyer
+		for _, fn := range liveModuleFuncs(c, "writer/service", "writer/controller") {
+			for _, b := range fn.Blocks {
+				for _, ins := range b.Instrs {
+					ci, ok := ins.(ssa.CallInstruction)
+					if !ok {
+						continue
+					}
+					sc := ci.Common().StaticCallee()
+					if sc == nil || !strings.HasPrefix(sc.Name(), "Done") || !strings.Contains(sc.String(), "/writer/utils/promise.Promise") {
+						continue
+					}
+					args := ci.Common().Args
+					errArg := args[len(args)-1]
+					key := kk.key(ssaName(fn) + " resolves a promise")
+					if w := errOrigin(errArg, map[ssa.Value]bool{}, 0); w != "" {
+						obls = append(obls, Obl{Key: key, Pos: c.pos(ci.Pos()), Status: Violation,
+							Msg: "the error the promise is resolved with can be " + w + ": a failed push can be reported as success"})
+					} else {
+						obls = append(obls, Obl{Key: key, Pos: c.pos(ci.Pos()), Status: OK})
+					}
+				}
+			}
+		}
+		return obls
+	},
+}
+
+func init() { register(ruleA12) }
+
+// ---------------------------------------------------------------------------------
+// D10
+
+func chainNode(t types.Type) (st *types.Struct, opIdx, tailIdx int, ok bool) {
+	if p, isP := t.Underlying().(*types.Pointer); isP {
+		t = p.Elem()
+	}
+	n := namedOf(t)
+	if n == nil {
+		return nil, 0, 0, false
+	}
+	s, isS := n.Underlying().(*types.Struct)
+	if !isS {
+		return nil, 0, 0, false
+	}
+	opIdx, tailIdx = -1, -1
+	for i := 0; i < s.NumFields(); i++ {
+		f := s.Field(i)
+		switch f.Name() {
+		case "Op", "AndOr":
+			if b, isB := f.Type().Underlying().(*types.Basic); isB && b.Info()&types.IsString != 0 {
+				opIdx = i
+			}
+		case "Tail":
+			if pt, isP := f.Type().(*types.Pointer); isP && namedOf(pt.Elem()) == n {
+				tailIdx = i
+			}
+		}
+	}
+	return s, opIdx, tailIdx, opIdx >= 0 && tailIdx >= 0
+}
+
+var ruleD10 = &Rule{
+	ID:    "D10",
+	Floor: 3,
+	Doc: "operator chains are translated by structural recursion: the query grammars parse `a or b and c` into a right-nested chain node {Head, Op|AndOr, Tail *Node}; the operator of a node joins its head with its *whole* tail. Every translator function (live code under reader/, grammar packages excluded) that reads the operator field of such a node must hand that node's Tail to a translation call (itself or a sibling taking the node type) — " +
+		"the tail is translated as a unit. A function that reads node.Op but never passes node.Tail to a call has flattened the chain (typically a loop `cur = cur.Tail` accumulating left to right): `a or b and c` becomes `(a or b) and c`, mixed and/or filters select different lines",
+	Run: func(c *Ctx) []Obl {
+		var obls []Obl
+		for _, fn := range liveModuleFuncs(c, "reader") {
+			if strings.Contains(fnPkgRel(fn), "parser") {
+				continue
+			}
+			type nodeUse struct {
+				opRead   token.Pos
+				tailArg  bool
+				tailRead bool
+				tname    string
+			}
+			uses := map[ssa.Value]*nodeUse{}
+			var order []ssa.Value
+			for _, b := range fn.Blocks {
+				for _, ins := range b.Instrs {
+					fa, ok := ins.(*ssa.FieldAddr)
+					if !ok {
+						continue
+					}
+					_, opIdx, tailIdx, ok := chainNode(fa.X.Type())
+					if !ok {
+						continue
+					}
+					base := canonBase(fa.X)
+					u := uses[base]
+					if u == nil {
+						u = &nodeUse{tname: types.TypeString(fa.X.Type(), func(p *types.Package) string { return p.Name() })}
+						uses[base] = u
+						order = append(order, base)
+					}
+					loaded := func() []ssa.Value {
+						var out []ssa.Value
+						if fa.Referrers() != nil {
+							for _, r := range *fa.Referrers() {
+								if ld, ok := r.(*ssa.UnOp); ok && ld.Op == token.MUL {
+									out = append(out, ld)
+								}
+							}
+						}
+						return out
+					}
+					switch fa.Field {
+					case opIdx:
+						if len(loaded()) > 0 && u.opRead == token.NoPos {
+							u.opRead = fa.Pos()
+						}
+					case tailIdx:
+						for _, ld := range loaded() {
+							u.tailRead = true
+							// does the loaded tail reach a call argument (directly or through phis)?
+							seen := map[ssa.Value]bool{}
+							var reach func(v ssa.Value) bool
+							reach = func(v ssa.Value) bool {
+								if seen[v] || v.Referrers() == nil {
+									return false
+								}
+								seen[v] = true
+								for _, r := range *v.Referrers() {
+									switch y := r.(type) {
+									case ssa.CallInstruction:
+										sc := y.Common().StaticCallee()
+										for _, a := range y.Common().Args {
+											if a == v && (sc == nil || len(sc.Blocks) > 0) {
+												return true
+											}
+										}
+									case *ssa.Phi:
+										// a phi at a loop header that becomes the next `cur` is traversal, not translation
+										isHeader := false
+										for i, p := range y.Block().Preds {
+											if y.Block().Dominates(p) && y.Edges[i] == v {
+												isHeader = true
+											}
+										}
+										if !isHeader && reach(y) {
+											return true
+										}
+									case *ssa.MakeInterface:
+										if reach(y) {
+											return true
+										}
+									}
+								}
+								return false
+							}
+							if reach(ld) {
+								u.tailArg = true
+							}
+						}
+					}
+				}
+			}
+			for _, base := range order {
+				u := uses[base]
+				if u.opRead == token.NoPos {
+					continue
+				}
+				key := ssaName(fn) + " translates the operator of " + u.tname
+				if u.tailArg {
+					obls = append(obls, Obl{Key: key, Pos: c.pos(u.opRead), Status: OK, Msg: "the node's tail is handed to a translation call as a unit"})
+				} else {
+					obls = append(obls, Obl{Key: key, Pos: c.pos(u.opRead), Status: Violation,
+						Msg: "the function reads the operator of a right-nested chain node but never passes that node's Tail to a translation call: the chain is flattened and the operator no longer joins the head with the whole tail (`a or b and c` is grouped as `(a or b) and c`)"})
+				}
+			}
+		}
+		// one obligation per (function, node type)
+		seen := map[string]bool{}
+		var out []Obl
+		sortObls(obls)
+		for _, o := range obls {
+			if o.Status == OK && seen[o.Key] {
+				continue
+			}
+			seen[o.Key] = true
+			out = append(out, o)
+		}
+		return out
+	},
+}
+
+func init() { register(ruleD10) }
